@@ -28,6 +28,10 @@ Inductive ev :=
 Definition getintvalue (bs : list Z) : Z :=
   fst (fold_left (fun '(ret, shift) b => (Z.lor ret (Z.shiftl b shift), shift + 8)) bs (0, 0)).
 Definition read_n (n : Z) (bs : list Z) : list Z * list Z := (firstn (Z.to_nat n) bs, skipn (Z.to_nat n) bs).
+(* "for _ in range(size)" over readers that each take at least one byte or raise: no more than (bytes left + 1) iterations can
+   happen - the last of them raises at the end of the data -, so the count is capped there (a count of 2^32 - 1 as a unary
+   number would not fit into memory, and is not what bounds the loop) *)
+Definition cnt (size : Z) (bs : list Z) : nat := Z.to_nat (Z.min size (Z.of_nat (length bs) + 1)).
 
 Section Values.
 Variable rec : list Z -> result (ev * list Z).     (* EncodedValue at one level deeper *)
@@ -58,10 +62,10 @@ Definition parse_step (rec : list Z -> result (ev * list Z)) (val : Z) (bs : lis
   else if (VALUE_STRING <=? value_type) && (value_type <=? VALUE_ENUM) then
     let '(raw, bs) := read_n (value_arg + 1) bs in Ok (ERef value_type (getintvalue raw), bs)
   else if value_type =? VALUE_ARRAY then
-    do '(size, bs) <- read_u bs; do '(vs, bs) <- parse_values rec (Z.to_nat size) bs; Ok (EArr vs, bs)
+    do '(size, bs) <- read_u bs; do '(vs, bs) <- parse_values rec (cnt size bs) bs; Ok (EArr vs, bs)
   else if value_type =? VALUE_ANNOTATION then
     do '(ty, bs) <- read_u bs; do '(size, bs) <- read_u bs;
-    do '(es, bs) <- parse_elements rec (Z.to_nat size) bs; Ok (EAnn ty es, bs)
+    do '(es, bs) <- parse_elements rec (cnt size bs) bs; Ok (EAnn ty es, bs)
   else if value_type =? VALUE_BYTE then
     do '(b, bs) <- get_byte bs; Ok (EByte (if 127 <? b then b - 256 else b), bs)
   else if value_type =? VALUE_NULL then Ok (ENull, bs)
@@ -76,7 +80,7 @@ Fixpoint parse_value (fuel : nat) (bs : list Z) : result (ev * list Z) :=
 
 (* EncodedArray (the static values of a class) *)
 Definition parse_array (fuel : nat) (bs : list Z) : result (list ev * list Z) :=
-  do '(size, bs) <- read_u bs; parse_values (parse_value fuel) (Z.to_nat size) bs.
+  do '(size, bs) <- read_u bs; parse_values (parse_value fuel) (cnt size bs) bs.
 
 (* set_static_fields: the values are bound to the static fields in order, unless there are more values than fields *)
 Definition bind_static (nfields : nat) (values : list ev) : list (option ev) :=
